@@ -278,6 +278,46 @@ def derived(ctx):
             ctx.count(1, distinct_key=("reaction", str(et)))
 
 
+def balance(ctx, cases):
+    """BalanceCases of Results.tla: clamped on x = 0, uniform traction on x = L, reactions summed per direction"""
+    from EasyFEA import Models, Simulations, Mesher
+    from EasyFEA.FEM import ElemType
+    from EasyFEA.Geoms import Domain, Point
+
+    traction = {"x": 3.0, "y": -1.2, "z": 0.5}
+    th = 0.7
+    for c in cases:
+        dim, n = c["dim"], (6 if c["fine"] else 2)
+        for et in ((ElemType.TRI3, ElemType.QUAD4) if dim == 2 else (ElemType.TETRA4, ElemType.HEXA8)):
+            with quiet():
+                dom = Domain(Point(0, 0), Point(1, 1), 1.0 / n)
+                mesh = Mesher().Mesh_2D(dom, [], et) if dim == 2 else Mesher().Mesh_Extrude(dom, [], [0, 0, 1], [n], et)
+                mat = Models.Elastic.Isotropic(dim, E=210.0, v=0.3, planeStress=True, thickness=th)
+                if c["sim"] == "Elastic":
+                    sim = Simulations.Elastic(mesh, mat, verbosity=False)
+                else:
+                    PF = Models.PhaseField
+                    sim = Simulations.PhaseField(mesh, PF(mat, PF.SplitType.Bourdin, PF.ReguType.AT2, Gc=2.7, l0=0.2), verbosity=False)
+                unk = ["x", "y", "z"][:dim]
+                n0 = mesh.Nodes_Conditions(lambda x, y, z: x == 0)
+                nL = mesh.Nodes_Conditions(lambda x, y, z: x == 1)
+                if c["damaged"]:
+                    mid = mesh.Nodes_Conditions(lambda x, y, z: np.abs(x - 0.5) <= 1.0 / n)
+                    sim.add_dirichlet(mid, [0.4], ["d"], problemType="damage")
+                sim.add_dirichlet(n0, [0] * dim, unk)
+                sim.add_surfLoad(nL, [traction[u] for u in unk], unk)
+                sim.Solve()
+                area = th if dim == 2 else 1.0
+                for u in unk:
+                    dofs = sim.Bc_dofs_nodes(n0, [u], "elastic")
+                    R = float(np.sum(sim.Calc_Reaction(dofs, "elastic")))
+                    F = traction[u] * area
+                    if abs(R + F) > 1e-8 * abs(F):
+                        ctx.violation(f"reaction-balance/{c['sim']}{dim}D/{et}/{'fine' if c['fine'] else 'coarse'}", f"{c['sim']} {dim}D {et} ({mesh.Nn} nodes{', damaged band' if c['damaged'] else ''}): the reactions in {u} over the clamped boundary sum to {R:.6g}, the applied load is {F:.6g}", dict(c, elem=str(et)))
+            ctx.count(1, distinct_key=("balance", c["sim"], dim, str(et), c["fine"], c["damaged"]))
+    ctx.section("reaction_balance", cases=len(cases))
+
+
 def repeated_requests(ctx, seed):
     """a result request is a read: asking every name three times in a row, in element and nodal form, interleaved with all the
     other names, returns the same arrays (nothing a request computes may leak into a later one)"""
@@ -361,6 +401,12 @@ def run(ctx):
     ctx.section("size_classes", **{k: sorted(v) for k, v in classes.items()})
     binding_selftest(ctx, rows)
     derived(ctx)
+    bal = (res.prints.get("BALANCE") or [[]])[-1]
+    if not bal:
+        from harness.core import MachineryError
+
+        raise MachineryError("Results.tla did not emit its balance cases")
+    balance(ctx, bal)
     repeated_requests(ctx, ctx.seed)
     ctx.section("names", rows=len(rows), unmodelled=sorted(unmod), unavailable=notes)
     ctx.sample(rows[0])
